@@ -55,4 +55,99 @@ MUTANTS = [
       "Stream::Empty => Stream::lazy(lazy),\n            Stream::Lazy(lazy_hat) => Stream::lazy_mplus_dfs(lazy_hat, lazy),",
       "Stream::Empty => Stream::Lazy(lazy),\n            Stream::Lazy(lazy_hat) => Stream::Lazy(LazyStream(Box::new(Lazy::MPlusDFS(lazy_hat, lazy)))),",
       silent=True),
+    M("c06-bind-loses-head", ["C06"], "src/stream.rs",
+      """                Stream::Cons(state, lazy) => Stream::lazy_mplus(
+                    LazyStream::pause(state, goal.clone()),
+                    LazyStream::bind(lazy, goal),
+                ),""",
+      """                Stream::Cons(_state, lazy) => Stream::lazy_bind(lazy, goal),""",
+      {"C06": "K4.linearity"}),
+    M("c06-disj-double-pause", ["C06"], "src/operator/disj.rs",
+      "LazyStream::pause(Box::new(state), self.goal_2.clone()),",
+      "LazyStream::pause(Box::new(state), self.goal_1.clone()),",
+      {"C06": "K3.disj"}),
+    M("c06-mapsum-skip", ["C06"], "src/state/map_sum.rs",
+      "let mut iter = iter.peekable();\n    let mut stream = Stream::empty();",
+      "let mut iter = iter.skip(1).peekable();\n    let mut stream = Stream::empty();",
+      {"C06": "map-sum"}),
+    M("c06-next-loses-residual", ["C06"], "src/solver.rs",
+      "                    *stream = Stream::Lazy(lazy_stream);\n",
+      "                    let _ = lazy_stream;\n",
+      {"C06": "K"}),
+    M("c06-conj-new-drops-goal", ["C06"], "src/operator/conj.rs",
+      "        Goal::dynamic(Rc::new(Conj { goal_1, goal_2 }))",
+      "        Goal::dynamic(Rc::new(Conj { goal_1: goal_2.clone(), goal_2 }))",
+      {"C06": "conj-new"}),
+    M("c06-eq-duplicates-answer", ["C06"], "src/relation/eq.rs",
+      "Ok(state) => Stream::unit(Box::new(state)),",
+      "Ok(state) => Stream::cons(Box::new(state.clone()), crate::stream::LazyStream::delay(Stream::unit(Box::new(state)))),",
+      {"C06": "clone"}),
+    M("c06-engine-wildcard", ["C06"], "src/stream.rs",
+      "            Lazy::Delay(stream) => stream,\n",
+      "            Lazy::Delay(_) => Stream::empty(),\n",
+      {"C06": "K"}),
+    M("c06-conde-bfs-drop-first", ["C06"], "src/operator/conde.rs",
+      """            if self.conjunctions.len() > 0 {
+                let new_stream = bfs.conjunctions[0].solve(solver, state);
+                stream = Stream::mplus(new_stream, LazyStream::delay(stream));
+            }""",
+      """            if self.conjunctions.len() > 0 {
+                let new_stream = bfs.conjunctions[0].solve(solver, state);
+                stream = Stream::mplus(new_stream, LazyStream::delay(Stream::empty()));
+            }""",
+      {"C06": "K"}),
+    M("c07-unswapped-mplus", ["C07", "C06"], "src/stream.rs",
+      "Stream::Lazy(lazy_hat) => Stream::lazy_mplus(lazy, lazy_hat),",
+      "Stream::Lazy(lazy_hat) => Stream::lazy_mplus(lazy_hat, lazy),",
+      {"C07": "swap", "C06": "merge"}),
+    M("c07-unswapped-cons", ["C07"], "src/stream.rs",
+      "Stream::Cons(head, lazy_hat) => Stream::cons(head, LazyStream::mplus(lazy, lazy_hat)),",
+      "Stream::Cons(head, lazy_hat) => Stream::cons(head, LazyStream::mplus(lazy_hat, lazy)),",
+      {"C07": "swap"}),
+    M("c07-conj-new-identity", ["C07"], "src/operator/conj.rs",
+      """        if goal_1.is_fail() || goal_2.is_fail() {
+            return InferredGoal::new(G::fail());
+        }
+""",
+      """        if goal_1.is_fail() || goal_2.is_fail() {
+            return InferredGoal::new(G::fail());
+        }
+        if goal_2.is_succeed() {
+            return InferredGoal::new(goal_1);
+        }
+""",
+      {"C07": "always-node"}),
+    M("c07-fresh-sync-solve", ["C07"], "src/operator/fresh.rs",
+      "Stream::pause(Box::new(state), bfs.body.clone())",
+      "bfs.body.solve(_solver, state)",
+      {"C07": "suspension"}),
+    M("c07-conde-no-delay", ["C07"], "src/operator/conde.rs",
+      """                    let new_stream = conjunction.solve(solver, state.clone());
+                    stream = Stream::mplus(new_stream, LazyStream::delay(stream));
+                }
+            }
+
+            if self.conjunctions.len() > 0 {
+                let new_stream = bfs.conjunctions[0].solve(solver, state);""",
+      """                    let new_stream = conjunction.solve(solver, state.clone());
+                    stream = match stream { Stream::Lazy(l) => Stream::mplus(new_stream, l), other => Stream::mplus(new_stream, LazyStream::delay(other)) };
+                }
+            }
+
+            if self.conjunctions.len() > 0 {
+                let new_stream = bfs.conjunctions[0].solve(solver, state);""",
+      {"C07": "conde-delay"}),
+    M("silent-c06-conj-identity", ["C06"], "src/operator/conj.rs",
+      """        if goal_1.is_fail() || goal_2.is_fail() {
+            return InferredGoal::new(G::fail());
+        }
+""",
+      """        if goal_1.is_fail() || goal_2.is_fail() {
+            return InferredGoal::new(G::fail());
+        }
+        if goal_2.is_succeed() {
+            return InferredGoal::new(goal_1);
+        }
+""",
+      silent=True),
 ]
